@@ -677,6 +677,21 @@ def _sequence_child(c, refs):
     return r
 
 
+# references are deterministic products of a pristine child process; a worker
+# keeps the ones it has already obtained (the worker itself never runs dassh)
+_REF_CACHE = {}
+
+
+def reference(kind, family, tp):
+    k = (kind, family, tp)
+    if k not in _REF_CACHE:
+        res = in_child(_reference_child if kind == 'A' else _single_child, family, tp)
+        if res[0] != 'ok':
+            return res
+        _REF_CACHE[k] = res
+    return _REF_CACHE[k]
+
+
 def _unwrap(res, c, r, what, kind='reference-failed'):
     """child result -> value, or None with a violation recorded"""
     if res[0] == 'ok':
@@ -698,7 +713,7 @@ def run_sequence(c):
     with CaseDir():
         refs = {}
         for tp in (0, 1):
-            v = _unwrap(in_child(_reference_child, c['family'], tp), c, r,
+            v = _unwrap(reference('A', c['family'], tp), c, r,
                         'reference run of time point %d (fresh input, fresh process)' % tp)
             if v is None:
                 r['outcome'] = 'reference-failed'
@@ -958,7 +973,7 @@ def run_schedule(c):
         # --- reference: every time point one at a time
         refs = {}
         for tp in range(ntp):
-            v = _unwrap(in_child(_single_child, fam, tp), dict(c, tp=tp), r,
+            v = _unwrap(reference('B', fam, tp), dict(c, tp=tp), r,
                         '%s: time point %d run one at a time (single-time-point input, '
                         'fresh process)' % (fam, tp + 1))
             if v is None:
